@@ -135,11 +135,47 @@ def _true_iff_empty(cond, args_id):
     return res == [True, False, False, False, False]
 
 
-def set_branches(L, qif):
+def set_branches(L, qif, unit=None):
     """[(label, CompoundStmt)] of the non-query branches."""
     ks = A.kids(qif)
     if len(ks) < 3:
-        return []        # (a guard-clause form - `if(query) { reply; return; }` followed by the set code - is not followed: no verdict)
+        # the guard-clause form `if(query) { reply; return; }` followed by the set code: the set branch is the rest of the
+        # enclosing block (a block of its own, carrying the position of its first statement)
+        then = ks[1]
+        last = A.kids(then)[-1] if then.get("kind") == "CompoundStmt" and A.kids(then) else then
+        if last.get("kind") != "ReturnStmt":
+            return []
+        for x in A.walk(L.body):
+            if x.get("kind") == "CompoundStmt" and any(k_ is qif for k_ in x.get("inner", [])):
+                inner = x["inner"]
+                rest = inner[[i for i, k_ in enumerate(inner) if k_ is qif][0] + 1:]
+                rest = [r_ for r_ in rest if r_.get("kind") not in A.COMMENT_KINDS]
+                if not rest:
+                    return []
+                # the set code must be all there: a helper of the sugar header (clamp / undo event moved into an inline
+                # function or template) or a local lambda is not entered by the rules that read the branch - declined
+                for r_ in rest:
+                    for y in A.walk(r_):
+                        if y.get("kind") == "LambdaExpr":
+                            return []
+                        if y.get("kind") == "CallExpr":
+                            cal = A.strip_casts(A.kids(y)[0]) if A.kids(y) else {}
+                            rd = cal.get("referencedDecl") or {}
+                            if cal.get("kind") == "UnresolvedLookupExpr":
+                                return []
+                            if cal.get("kind") == "DeclRefExpr" and rd.get("kind") in ("FunctionDecl", "FunctionTemplateDecl"):
+                                d = unit.by_id.get(rd.get("id")) if unit is not None else None
+                                f_ = A.loc(d)[0] if d is not None else None
+                                if d is None:
+                                    continue          # declared in a system header (not kept in the facts): a library function
+                                if not f_ or f_.endswith("port-sugar.h") or f_.endswith("sugar_matrix.cpp"):
+                                    return []
+                blk = {"kind": "CompoundStmt", "inner": rest, "id": "rest-of-" + str(x.get("id"))}
+                for key in ("loc", "range"):
+                    if key in rest[0]:
+                        blk[key] = rest[0][key]
+                return [("value", blk)]
+        return []
     e = ks[2]
     out = []
     while e.get("kind") == "IfStmt":
